@@ -100,6 +100,26 @@ func main() {
 			fn := w.lookupFunc(n)
 			fmt.Printf("%s\t%s\n", n, filepath.Base(w.fset.Position(fn.Pos()).Filename))
 		}
+	case "locals":
+		// prints the snapshot lines for verif_locals.go: one per function under contract that has locals
+		w, err := loadWorld(repo)
+		if err != nil {
+			fmt.Fprintln(os.Stderr, err)
+			os.Exit(2)
+		}
+		for _, name := range w.contracts.Order {
+			fc := w.contracts.Funcs[name]
+			if fc.FnType != "" || fc.Skip != "" {
+				continue
+			}
+			fn := w.lookupFunc(name)
+			if fn == nil {
+				continue
+			}
+			if ls := w.localsOf(fn); len(ls) > 0 {
+				fmt.Printf("//@ locals %s : %s\n", name, strings.Join(ls, " "))
+			}
+		}
 	case "closures":
 		w, err := loadWorld(repo)
 		if err != nil {
@@ -398,6 +418,9 @@ func runCheck(repo, prop, tier string, keep bool, only string, noEvidence bool) 
 			usedCtr[c] = true
 		}
 		assumed = append(assumed, fr.Enc.assumed...)
+		for r := range fr.Enc.renamesUsed {
+			assumed = append(assumed, "contract clause read through the locals snapshot (pure rename of a local variable since the contracts were written): "+r)
+		}
 		for _, o := range fr.Obls {
 			solverSecs += o.Secs
 			if o.Cover {
